@@ -497,6 +497,18 @@ func (s *Sim) setup() {
 	if sc.GST > 0 {
 		s.push(&Event{At: sc.GST, Kind: EvPartHeal, Aux: 1})
 	}
+	if sc.HugePool > 0 {
+		for i := 0; i < sc.HugePool; i++ {
+			s.nextTx++
+			tx := NewTx(s.nextTx, false)
+			s.allTx[tx.Hash()] = tx
+			for _, n := range s.nodes {
+				n.pool[tx.Hash()] = tx
+				n.everHad[tx.Hash()] = true
+			}
+		}
+		s.fault("huge_verified_pool")
+	}
 	if sc.WOFlipIdent > 0 {
 		s.after(sc.WOFlipAt, &Event{Kind: EvCustom, Fn: func() {
 			for _, n := range s.nodes {
